@@ -174,6 +174,12 @@ func drawDetCase(rt *rapid.T) (*DetCase, bool) {
 		hv := gen.HashValue(rt, "fieldhash", gen.ValueOpts{Depth: 2, FieldSafe: true})
 		c.Obj = &eng.ObjSpec{Mode: "map", Fields: []eng.Field{{Name: "M", V: hv}, {Name: "N", V: lang.Int(3)}}}
 		b.WriteString("trace(keys(M), string(M));\nforeach k, v in M { trace(k, v); }\n")
+		if rapid.Bool().Draw(rt, "dollarkeys") {
+			// keys that differ only by the legacy $ prefix, and by case
+			c.Obj.Fields = append(c.Obj.Fields, eng.Field{Name: "$N", V: lang.Int(4)}, eng.Field{Name: "n", V: lang.Int(5)}, eng.Field{Name: "$M", V: lang.Str("other")}, eng.Field{Name: "$$N", V: lang.Int(6)})
+			b.WriteString("trace(N, $N, n, type(M), type($M));\n")
+			nontrivial = true
+		}
 	}
 	// several small functions whose bodies the optimizer treats differently
 	// (foldable arithmetic, constant conditions, constant division by zero)
